@@ -127,6 +127,28 @@ func (v *FnVC) exec(fr *frame, st *State, ins ssa.Instruction) {
 	case *ssa.ChangeInterface:
 		set(v.value(fr, x.X))
 	case *ssa.MakeInterface:
+		if _, isPtr := under(x.X.Type()).(*types.Pointer); isPtr {
+			if ps, ok := v.scalarizeVal(v.value(fr, x.X)).(Sc); ok {
+				cond := Not(Eq(ps.T, tZero))
+				// Go idiom `return f(x)` with f returning (*T, error): the value only matters when err == nil
+				if errv := returnedWithError(x); errv != nil {
+					var evv Val
+					if have, ok := fr.vals[errv]; ok {
+						evv = have
+					} else if ex, ok := errv.(*ssa.Extract); ok {
+						if tv, ok := fr.vals[ex.Tuple].(TupleV); ok {
+							evv = tv.E[ex.Index]
+						}
+					} else if _, isConst := errv.(*ssa.Const); isConst {
+						evv = v.value(fr, errv)
+					}
+					if ev, ok := evv.(IfaceV); ok {
+						cond = Implies(Eq(ev.Tag, tZero), cond)
+					}
+				}
+				v.safe(fr, "typednil", x, cond)
+			}
+		}
 		set(v.makeIface(v.value(fr, x.X), x.X.Type()))
 	case *ssa.TypeAssert:
 		set(v.typeAssert(fr, x))
@@ -815,4 +837,41 @@ func describeInstr(ins ssa.Instruction) string {
 		s = s[:100]
 	}
 	return strings.TrimSpace(s)
+}
+
+// returnedWithError: the MakeInterface result is used only as a non-last operand of a Return whose last
+// operand is an error; returns that error operand.
+func returnedWithError(mi *ssa.MakeInterface) ssa.Value {
+	refs := mi.Referrers()
+	if refs == nil || len(*refs) == 0 {
+		return nil
+	}
+	var errv ssa.Value
+	for _, r := range *refs {
+		ret, ok := r.(*ssa.Return)
+		if !ok {
+			if _, isDbg := r.(*ssa.DebugRef); isDbg {
+				continue
+			}
+			return nil
+		}
+		n := len(ret.Results)
+		if n < 2 || ret.Results[n-1] == ssa.Value(mi) {
+			return nil
+		}
+		last := ret.Results[n-1]
+		if !isErrorType(last.Type()) {
+			return nil
+		}
+		if errv != nil && errv != last {
+			return nil
+		}
+		errv = last
+	}
+	return errv
+}
+
+func isErrorType(t types.Type) bool {
+	n, ok := types.Unalias(t).(*types.Named)
+	return ok && n.Obj().Pkg() == nil && n.Obj().Name() == "error"
 }
